@@ -4,6 +4,6 @@ p=$1; shift
 git -C /repo apply --check "$p" 2>/dev/null || git -C /repo apply --check -3 "$p" 2>/dev/null || { echo "PATCH DOES NOT APPLY: $p"; exit 3; }
 git -C /repo apply "$p" || exit 3
 for c in "$@"; do
-  ( cd /verif && timeout 1500 ./check $c 2>&1 | grep -E "^(VIOLATION|OK|ERROR|KNOWN)" | head -3 | cut -c1-300 )
+  ( cd /verif && timeout 1500 ./check $c 2>&1 | grep -E "^(VIOLATION|OK|ERROR)" | head -3 | cut -c1-300 )
 done
 git -C /repo checkout -- . 
